@@ -680,7 +680,15 @@ def decorate_with_checker(func: CallableT) -> CallableT:
             "a reserved placeholder for keyword arguments in the condition."
         )
 
-    param_names = list(sign.parameters.keys())
+    # Only the parameters preceding the keyword-only ones can be bound by position.
+    # Surplus positional arguments are collected by the variadic parameter and must not
+    # spill over to the keyword-only parameters.
+    param_names = [
+        name
+        for name, param in sign.parameters.items()
+        if param.kind
+        not in (inspect.Parameter.KEYWORD_ONLY, inspect.Parameter.VAR_KEYWORD)
+    ]
 
     # Determine the default argument values
     kwdefaults = resolve_kwdefaults(sign=sign)
